@@ -246,7 +246,7 @@ PROPS = {
     },
     "C10": {
         "level": "other",
-        "verus": [("convert", ["convert_amount", "PriceRepository::convert_single", "PriceRepository::new"]), ("query", ["Ledger::balance", "Balance::round"]), ("determinism", ["callsite:Ledger::balance.conversion_order", "Amount::sorted_values"])],
+        "verus": [("convert", ["convert_amount", "PriceRepository::convert_single", "PriceRepository::new"]), ("query", ["Ledger::balance", "Balance::round", "Ledger::eval"]), ("determinism", ["callsite:Ledger::balance.conversion_order", "Amount::sorted_values"])],
         "kani": {"quick": [], "thorough": []},
         # the report goes through the price search, so the C09 family is run for C10 as well (seed C10-k: a search change seen only through `balance -X`)
         "family": [("c10", {"quick": [], "thorough": []}), ("c09", {"quick": [], "thorough": ["thorough"]})],
@@ -260,9 +260,10 @@ PROPS = {
                        "by less than (target, date) fails this).  Ledger::balance, the WHOLE function (group `query`; the flat_map/filter_map loop header rewritten into two nested indexed loops by rule R30, std's Cow modelled): --historical "
                        "books, for every stored posting of a transaction dated in the window, convert_amount(posting amount, T, transaction date) on the posting's account - and fails iff one of them has no rate; "
                        "-X at the report date converts every account of the stored (or re-folded) balance on its own with convert_amount(.., T, now), keeps exactly the same accounts, fails iff some account has an unconvertible holding, and rounds once at the end (Balance::round: proved).  "
+                       "Ledger::eval (`eval -X T`, whole function) converts the amount the expression evaluates to as a whole with convert_amount(.., T, the asked date) - every holding once or failure - and rejects an exchange commodity the ledger does not know.  "
                        "NOT decided by proof: EvalOptions::to_conversion (cli glue); bounded stand-in, c10 family: 4 ledgers x 3 scalings x declared/undeclared precision x 7 report dates (historical, before / between / on / after the "
                        "price dates) against a twin written from the statement (direct ledger prices only, so that rate choice - C09 - plays no part).",
-        "units_doc": ["core/src/report/price_db.rs: convert_amount, PriceRepository::{new, convert_single}", "core/src/report/query.rs: Ledger::balance (whole function: both conversion branches; account order before conversion also sliced for C13)", "core/src/report/balance.rs: Balance::round", "core/src/report/eval/amount.rs: Amount::sorted_values (listing behind Amount::iter)"],
+        "units_doc": ["core/src/report/price_db.rs: convert_amount, PriceRepository::{new, convert_single}", "core/src/report/query.rs: Ledger::balance (whole function: both conversion branches; account order before conversion also sliced for C13), Ledger::eval (whole function)", "core/src/report/balance.rs: Balance::round", "core/src/report/eval/amount.rs: Amount::sorted_values (listing behind Amount::iter)"],
         "assumptions": [L0_DECIMAL, L0_HANDLES, L0_STD, L1_AMOUNT,
                         "requires: convert_amount, convert_single and Ledger::balance assume the memo is consistent with the records on entry (established by PriceRepository::new, preserved by all three: proved); Ledger construction (ProcessAccumulator -> Ledger) is not under contract",
                         "assumed: std::borrow::Cow modelled by an enum with the same variants (into_owned returns the value / an equal clone); R30: flat_map / filter_map visit outer then inner elements in order (std definition); R25e: values_mut visits every value once",
